@@ -143,6 +143,32 @@ def run(tier, seed, replay=None):
         err = float((x.full() - ref).norm() / ref.norm())
         if err > 100 * eps + 1e-9:
             V.fail("dmrg_cross: accuracy %s target" % kind, dict(desc, rel_err=err, ranks=[int(r) for r in x.R]))
+    # ---- functions whose values are not in the working dtype (integer-valued functions computed from the int64 index matrix, float32 tables, a
+    # boolean indicator) and the documented dtype= option: the values are converted, the tensor of function values is still what is approximated
+    rng_d = random.Random(seed + 29)
+    for j in range(8 if tier == "quick" else 80):
+        d = rng_d.choice([2, 3, 4]); N = [rng_d.choice([2, 3, 4, 5, 6]) for _ in range(d)]
+        kd = ["int64", "float32", "bool", "dtype=float32", "int64", "float32", "int32", "dtype=float32"][j % 8]
+        if kd in ("int64", "int32"):
+            fo = lambda I, kd=kd: ((I[:, 0] + 1) * (I[:, -1] + 2) + I.sum(1)).to(torch.int64 if kd == "int64" else torch.int32)
+        elif kd == "float32":
+            fo = lambda I: (1.0 / (2.0 + I.sum(1).to(torch.float64))).to(torch.float32)
+        elif kd == "bool":
+            fo = lambda I: (I[:, 0] >= 1)
+        else:
+            fo = lambda I: 1.0 / (2.0 + I.sum(1).to(torch.float64))
+        eps = 1e-4 if "float32" in kd else rng_d.choice([1e-8, 1e-6])
+        sd = rng_d.randrange(1 << 30); torch.manual_seed(sd)
+        desc = {"routine": "dmrg_cross", "N": N, "function_values": kd, "eps": eps, "torch_seed": sd}
+        try:
+            x = ip.dmrg_cross(fo, N, eps=eps, nswp=12, **({"dtype": torch.float32} if kd == "dtype=float32" else {}))
+        except Exception as ex:
+            V.fail("dmrg_cross raises %s [function values %s]" % (type(ex).__name__, kd), dict(desc, exc=str(ex)[:200])); continue
+        ref = fo(torch.tensor(list(itertools.product(*[range(n_) for n_ in N])), dtype=torch.int64)).reshape(N).to(torch.float64)
+        if list(x.N) != N: V.fail("dmrg_cross: result has shape %s" % list(x.N), desc); continue
+        err = float((x.full().to(torch.float64) - ref).norm() / ref.norm())
+        if err > 100 * eps + 1e-9: V.fail("dmrg_cross: accuracy [function values %s]" % kd, dict(desc, rel_err=err, ranks=[int(r) for r in x.R]))
+        dist["function values " + kd] = dist.get("function values " + kd, 0) + 1
     # ---- function_interpolate: values handed to the function are entries of the argument tensors
     for i in range(n // 2):
         d = rng.choice([2, 3, 4])
